@@ -836,7 +836,7 @@ class Grammar:
 
 
 def gen_contract(rng, name="T", ntests=3, pool=(), with_helper=None, bytes_sizes=None, array_sizes=None,
-                 panic_codes=(1,), refine=True, touch=False, loops=False, siblings=None, subst=None) -> Generated:
+                 panic_codes=(1,), refine=True, touch=False, loops=False, siblings=None, subst=None, jumps=None) -> Generated:
     """setUp() storing constants (optionally deploying a helper whose address is kept in a slot) + `ntests` check functions,
     alternately reachable / unreachable, at least one with a dynamic parameter and one needing refinement per few contracts."""
     g = Grammar(rng, pool, bytes_sizes, array_sizes, panic_codes, refine)
@@ -872,6 +872,9 @@ def gen_contract(rng, name="T", ntests=3, pool=(), with_helper=None, bytes_sizes
     if loops:
         g.n += 1
         checks.append(gen_loop_check(rng, ntests, g))
+    if jumps:
+        g.n += 1
+        checks.append(gen_jump_check(rng, ntests + 3, g, **(jumps if isinstance(jumps, dict) else {})))
     if subst:
         g.n += 1
         checks.append(gen_subst_check(rng, ntests + 2, g, **(subst if isinstance(subst, dict) else {})))
@@ -893,6 +896,56 @@ def gen_contract(rng, name="T", ntests=3, pool=(), with_helper=None, bytes_sizes
     desc = TestContract(name, fns)
     return Generated(desc, checks, storage, others,
                      dyn_sizes={"bytes": g.bytes_sizes, "uint256[]": g.array_sizes})
+
+
+def push32_overhang(K: int) -> int:
+    """how many code bytes AFTER a `PUSH32 K` a byte-by-byte scan would skip if it did not skip the 32 operand bytes as one unit
+    but read them as opcodes (PUSHn bytes inside the constant then swallow what follows)"""
+    b, i = K.to_bytes(32, "big"), 0
+    while i < 32:
+        i += 1 + (b[i] - 0x5F) if 0x60 <= b[i] <= 0x7F else 1
+    return i - 32
+
+
+EIP1967_IMPL_SLOT = 0x360894A13BA1A3210667C828492DB98DCA3E2076CC3735A920A3CA505D382BBC
+
+
+@dataclass
+class JumpCheck(Check):
+    """the failure sits behind a JUMP to a JUMPDEST that directly follows code containing a PUSH32 constant with embedded
+    PUSH-opcode bytes: `if (guard) goto bad; PUSH32 K; POP; STOP; bad: Panic(1)`. Jump-destination analysis must skip the 32
+    operand bytes as data (Yellow Paper 9.4.3); K is chosen so that reading them as code would hide `bad`."""
+    K: int = EIP1967_IMPL_SLOT
+    use_k: str = "pop"
+
+    def body(self) -> list:
+        g = conj(self.atoms).compile()
+        skip, bad = asm.fresh("skip"), asm.fresh("bad")
+        mid = [("push", self.K, 32)] + (["POP"] if self.use_k == "pop" else ["SLOAD", "POP"] if self.use_k == "sload" else []) + ["STOP"]
+        fail = asm.panic(1) if self.kind == "panic" else (asm.set_fail_flag() + ["STOP"])
+        return list(self.prologue) + g + ["ISZERO", ("ref", skip), "JUMPI", ("ref", bad), "JUMP", ("label", skip)] + mid + \
+            [("label", bad)] + fail + ["STOP"]
+
+
+def gen_jump_check(rng, idx, g: "Grammar", K=None, use_k=None) -> JumpCheck:
+    use_k = use_k or rng.choice(["pop", "sload", "none"])
+    gap = {"pop": 2, "sload": 3, "none": 1}[use_k]
+    if K is None:
+        if rng.random() < 0.3:
+            K = EIP1967_IMPL_SLOT
+        else:
+            # 32 bytes without PUSH opcodes except one PUSHn near the end whose operand reaches past the constant
+            j = rng.randrange(0, 6)                     # distance of the PUSHn byte from the end of the constant
+            n = j + gap + rng.randrange(1, 8)            # operand length: covers the rest of the constant, the gap and the JUMPDEST
+            n = min(n, 31)
+            body = [rng.choice([x for x in range(256) if not 0x60 <= x <= 0x7F]) for _ in range(32)]
+            body[31 - j] = 0x5F + n
+            K = int.from_bytes(bytes(body), "big")
+    assert push32_overhang(K) > gap, (hex(K), push32_overhang(K), gap)
+    c = g.word()
+    params = [Param("uint256", "x")]
+    return JumpCheck(f"check_{idx}_jump{g.n}", params, [Bin("EQ", Arg(0), Const(c))], rng.choice(["panic", "flag"]), 1, True, [c], None,
+                     "and", f"jumpdest-after-push32:{'eip1967' if K == EIP1967_IMPL_SLOT else 'random'}:{use_k}", True, [], None, K, use_k)
 
 
 @dataclass
